@@ -6,6 +6,7 @@ import (
 	"fmt"
 	"io"
 	"runtime"
+	"runtime/debug"
 	"sync"
 
 	"gitlab.com/gomidi/midi/v2/smf"
@@ -27,7 +28,7 @@ func init() {
 			"termination is observed by the per-run watchdog (a hang makes the run inconclusive, with the case id in the worker's current-case file)",
 			"the prefix relation is event-for-event on (delta, canonical message bytes); a missing end-of-track at the end of the last track is a legitimate prefix",
 		},
-		Require: []string{"shape_additivity_checks", "reads_after_failed_read", "sequence_failed_reads", "truncations", "truncation_results_ok_value", "truncation_results_error", "mutants", "random_strings", "targeted", "alloc_measurements", "reads_with_log", "big_payload_truncations", "proportionality_checks", "concurrent_truncation_files"},
+		Require: []string{"many_chunks_small_stack_reads", "shape_additivity_checks", "reads_after_failed_read", "sequence_failed_reads", "truncations", "truncation_results_ok_value", "truncation_results_error", "mutants", "random_strings", "targeted", "alloc_measurements", "reads_with_log", "big_payload_truncations", "proportionality_checks", "concurrent_truncation_files"},
 		UsesCur: true,
 		Run:     runC05,
 	})
@@ -374,6 +375,29 @@ func runC05(c *mon.Ctx) {
 			full("A", a, truthA, "after two cut reads of B") &&
 			full("B", b, truthB, "again")
 		c.DistinctBytes([]byte(fmt.Sprint("seq", nA, nB)))
+	})
+
+	// ---- structural counts, quick tier: 500 000 empty unknown chunks in front of a track while the worker's
+	// goroutine stack limit is lowered from Go's 1 GB to 16 MiB: per-chunk recursion or other work kept on
+	// the stack shows as a fatal stack overflow (attributed to this case through the current-case file)
+	c.Each("many-chunks-small-stack", 1, func(_ int64, _ *mon.Rand) {
+		old := debug.SetMaxStack(16 << 20)
+		defer debug.SetMaxStack(old)
+		n := 500_000
+		b := make([]byte, 0, 14+8*n+20)
+		b = append(b, hdr(1, 1, 96)...)
+		for k := 0; k < n; k++ {
+			b = append(b, 'X', 'F', 'I', 'L', 0, 0, 0, 0)
+		}
+		b = append(b, trk(0, 0x90, 1, 1, 5, 0x80, 1, 0, 0, 0xFF, 0x2F, 0)...)
+		in := fmt.Sprintf("%d empty unknown chunks (8 bytes each) followed by one track, goroutine stack limit 16 MiB", n)
+		c.CurPayload([]byte(in))
+		s, err, p := k.read(b, "many-chunks", in, true)
+		if !p && (err != nil || len(s.Tracks) != 1 || len(s.Tracks[0]) != 3) {
+			c.Violation("many-chunks", fmt.Sprintf("file with %d unknown chunks before its track: %v", n, err), in, "1 track with 3 events", fmt.Sprint(err))
+		}
+		c.Count("many_chunks_small_stack_reads", 1)
+		c.DistinctBytes([]byte(in))
 	})
 
 	// ---- structural counts (thorough): millions of empty unknown chunks in front of a track
